@@ -1,24 +1,295 @@
-//! Seeded random scenario generators.
+//! Seeded random scenario generators (inputs only).
 use crate::scenario::*;
 use rand::rngs::StdRng;
+use rand::seq::SliceRandom;
 use rand::{Rng, SeedableRng};
 
-pub fn basic(seed: u64) -> Scenario {
+pub const SIZES: [usize; 22] = [0, 1, 2, 9, 100, 255, 256, 257, 1023, 1024, 1025, 4096, 16383, 16384, 16385, 21845, 32768, 43690, 65535, 65536, 70000, 150000];
+pub const WINDOWS: [u32; 12] = [0, 1, 2, 100, 1000, 16384, 21845, 43690, 65535, 65536, 200000, 1 << 20];
+pub const CODES: [u32; 14] = [0, 1, 2, 3, 5, 7, 8, 11, 13, 14, 255, 65536, 0x7fff_ffff, 0xdead_beef];
+
+fn pick<T: Copy>(rng: &mut StdRng, v: &[T]) -> T {
+    *v.choose(rng).unwrap()
+}
+
+fn small_hid(rng: &mut StdRng) -> usize {
+    // mostly small header lists, sometimes huge (CONTINUATION)
+    if rng.gen_bool(0.15) {
+        pick(rng, &[7usize, 8, 9, 20, 21])
+    } else {
+        pick(rng, &[0usize, 1, 2, 3, 4, 5, 6, 10, 11, 12, 13, 15, 16, 17, 19, 22, 23])
+    }
+}
+
+fn body_ops(rng: &mut StdRng, allow_reset: bool) -> (Vec<SendOp>, bool) {
+    // returns ops and whether the stream is ended cleanly by them
+    let mut ops = vec![];
+    let n = rng.gen_range(0..4);
+    let mut ended = false;
+    for i in 0..n {
+        let last = i == n - 1;
+        let sz = pick(rng, &SIZES);
+        let eos = last && rng.gen_bool(0.7);
+        match rng.gen_range(0..10) {
+            0..=4 => ops.push(SendOp::Data { n: sz, eos }),
+            5..=7 => ops.push(SendOp::DataCap { n: sz, eos }),
+            8 => {
+                ops.push(SendOp::Reserve { n: sz });
+                ops.push(SendOp::Cap);
+                ops.push(SendOp::Data { n: sz, eos });
+            }
+            _ => {
+                ops.push(SendOp::Reserve { n: sz });
+                ops.push(SendOp::PollCap);
+                ops.push(SendOp::Reserve { n: sz / 2 });
+                ops.push(SendOp::Data { n: sz / 2, eos });
+            }
+        }
+        if eos {
+            ended = true;
+        }
+        if rng.gen_bool(0.1) {
+            ops.push(SendOp::Yield);
+        }
+    }
+    if !ended {
+        match rng.gen_range(0..10) {
+            0..=3 => {
+                ops.push(SendOp::Trailers { hid: small_hid(rng) });
+                ended = true;
+            }
+            4..=6 => {
+                ops.push(SendOp::Data { n: 0, eos: true });
+                ended = true;
+            }
+            7 if allow_reset => ops.push(SendOp::Reset { code: pick(rng, &CODES) }),
+            8 if allow_reset => ops.push(SendOp::Drop),
+            _ => {
+                ops.push(SendOp::Data { n: pick(rng, &SIZES), eos: true });
+                ended = true;
+            }
+        }
+    }
+    (ops, ended)
+}
+
+fn read_pol(rng: &mut StdRng, disrupt: bool) -> ReadPol {
+    let mut p = ReadPol::default();
+    p.release = pick(rng, &["now", "now", "now", "late", "half", "never"]).to_string();
+    if disrupt {
+        if rng.gen_bool(0.08) {
+            p.drop_head = true;
+        }
+        if rng.gen_bool(0.12) {
+            p.max_chunks = Some(rng.gen_range(0..3));
+        }
+    }
+    if p.release == "never" || p.release == "half" {
+        // holding capacity for ever would stall a cooperating peer by design: let go eventually
+        p.release = "late".into();
+    }
+    if rng.gen_bool(0.1) {
+        p.trailers_first = true;
+    }
+    p
+}
+
+fn ep_cfg(rng: &mut StdRng, server: bool) -> EpCfg {
+    let mut c = EpCfg::default();
+    if rng.gen_bool(0.5) {
+        c.iws = Some(pick(rng, &[1u32, 100, 1000, 16384, 21845, 65535, 100000, 1 << 20]));
+    }
+    if rng.gen_bool(0.3) {
+        c.conn_win = Some(pick(rng, &[65535u32, 65536, 100000, 1 << 20, 1000, 30000]));
+    }
+    if rng.gen_bool(0.3) {
+        c.max_frame = Some(pick(rng, &[16384u32, 16385, 20000, 65536, 1 << 20, (1 << 24) - 1]));
+    }
+    if rng.gen_bool(0.3) && server {
+        c.max_conc = Some(pick(rng, &[1u32, 2, 3, 100]));
+    }
+    if rng.gen_bool(0.2) {
+        c.hdr_table = Some(pick(rng, &[0u32, 64, 200, 4096, 8192]));
+    }
+    if rng.gen_bool(0.3) {
+        c.max_send_buf = Some(pick(rng, &[1usize, 100, 16384, 65536, 1 << 20]));
+    }
+    if rng.gen_bool(0.2) {
+        c.reset_max = Some(pick(rng, &[0usize, 1, 2, 10]));
+    }
+    c
+}
+
+/// Mode A: real client and real server, random programs and schedules.
+/// `disrupt` enables resets / drops / early handle drops.
+pub fn mix_a(seed: u64, disrupt: bool) -> Scenario {
+    let mut rng = StdRng::seed_from_u64(seed ^ 0xA11CE);
     let mut s = Scenario::default();
-    s.name = format!("basic-{}", seed);
+    s.name = format!("mixA{}-{}", if disrupt { "d" } else { "" }, seed);
     s.mode = "A".into();
     s.sched.seed = seed;
-    let mut rng = StdRng::seed_from_u64(seed);
-    let n = rng.gen_range(1..4);
-    for i in 0..n {
+    s.ccfg = ep_cfg(&mut rng, false);
+    s.scfg = ep_cfg(&mut rng, true);
+    let push = rng.gen_bool(0.3);
+    s.ccfg.enable_push = Some(push);
+    for ep in 0..2 {
+        if rng.gen_bool(0.35) {
+            s.io.wmax[ep] = pick(&mut rng, &[1usize, 3, 9, 10, 64, 1000, 16384, 20000]);
+        }
+        if rng.gen_bool(0.35) {
+            s.io.rmax[ep] = pick(&mut rng, &[1usize, 2, 5, 9, 64, 1000, 16393]);
+        }
+        s.io.vectored[ep] = rng.gen_bool(0.5);
+    }
+    s.io.deliver = pick(&mut rng, &["all", "all", "rand", "rand", "small"]).to_string();
+    let tiny_win = |c: &EpCfg| c.iws.map(|v| v < 1000).unwrap_or(false) || c.conn_win.map(|v| v < 10000).unwrap_or(false) || c.max_send_buf.map(|v| v < 1000).unwrap_or(false);
+    let env_win: Option<u32> = if rng.gen_bool(0.2) { Some(pick(&mut rng, &WINDOWS)) } else { None };
+    let big_bodies = s.io.wmax.iter().chain(s.io.rmax.iter()).all(|&x| x == 0 || x >= 64) && s.io.deliver != "small"
+        && !tiny_win(&s.ccfg) && !tiny_win(&s.scfg) && env_win.map(|v| v >= 1000).unwrap_or(true);
+    let nreq = rng.gen_range(1..6);
+    for i in 0..nreq {
         let mut r = ReqProg::default();
         r.tag = i + 1;
-        r.ready = true;
-        r.hid = rng.gen_range(0..24);
-        r.ops = vec![SendOp::Data { n: rng.gen_range(0..100000), eos: true }];
+        r.ready = rng.gen_bool(0.8);
+        r.hid = small_hid(&mut rng);
+        r.method = pick(&mut rng, &["POST", "POST", "GET", "PUT"]).to_string();
+        let (mut ops, _) = body_ops(&mut rng, disrupt);
+        if !big_bodies {
+            shrink(&mut ops);
+        }
+        if rng.gen_bool(0.25) {
+            r.eos = true;
+            ops.clear();
+        }
+        r.ops = ops;
+        if !big_bodies && [7usize, 8, 9, 20, 21, 6, 16].contains(&r.hid) {
+            r.hid = 5;
+        }
+        r.read = read_pol(&mut rng, disrupt);
+        r.read.info = rng.gen_bool(0.3);
+        r.read.push = push && rng.gen_bool(0.7);
+        if rng.gen_bool(0.15) {
+            r.start_q = Some(1);
+        }
         s.reqs.push(r);
     }
-    s.srv.push(SrvProg { ops: vec![SendOp::Response { status: 200, hid: 1, eos: false }, SendOp::Data { n: 70000, eos: true }], read: ReadPol::default(), note: String::new() });
-    s.drop_sr_when_done = true;
+    let nsrv = rng.gen_range(1..4);
+    for _ in 0..nsrv {
+        let mut ops = vec![];
+        for _ in 0..rng.gen_range(0..3) {
+            if rng.gen_bool(0.4) {
+                ops.push(SendOp::Info { status: pick(&mut rng, &[100u16, 103, 103]) });
+            }
+        }
+        if push && rng.gen_bool(0.5) {
+            let ptag = 100 + rng.gen_range(0..50);
+            let (mut pops, _) = body_ops(&mut rng, disrupt);
+            if !big_bodies {
+                shrink(&mut pops);
+            }
+            let mut all = vec![SendOp::Response { status: 200, hid: small_hid(&mut rng), eos: false }];
+            all.append(&mut pops);
+            ops.push(SendOp::Push { tag: ptag, hid: small_hid(&mut rng), ops: all });
+        }
+        if disrupt && rng.gen_bool(0.08) {
+            ops.push(SendOp::Reset { code: pick(&mut rng, &CODES) });
+        } else {
+            let eos = rng.gen_bool(0.3);
+            ops.push(SendOp::Response { status: pick(&mut rng, &[200u16, 200, 404, 204]), hid: small_hid(&mut rng), eos });
+            if !eos {
+                let (mut b, _) = body_ops(&mut rng, disrupt);
+                if !big_bodies {
+                    shrink(&mut b);
+                }
+                ops.append(&mut b);
+            }
+        }
+        if !big_bodies {
+            for o in ops.iter_mut() {
+                match o {
+                    SendOp::Response { hid, .. } | SendOp::Push { hid, .. } => {
+                        if [7usize, 8, 9, 20, 21, 6, 16].contains(hid) {
+                            *hid = 5;
+                        }
+                    }
+                    _ => {}
+                }
+                if let SendOp::Push { ops: pops, .. } = o {
+                    for po in pops.iter_mut() {
+                        if let SendOp::Response { hid, .. } = po {
+                            if [7usize, 8, 9, 20, 21, 6, 16].contains(hid) {
+                                *hid = 5;
+                            }
+                        }
+                    }
+                }
+            }
+        }
+        s.srv.push(SrvProg { ops, read: read_pol(&mut rng, disrupt), note: String::new() });
+    }
+    // environment
+    if rng.gen_bool(0.35) {
+        let ep = rng.gen_range(0..2);
+        let at = rng.gen_range(5..150);
+        s.env.push(EnvStep { at: "step".into(), n: at, op: EnvOp::Budget { ep, n: Some(rng.gen_range(0..40)) } });
+        if rng.gen_bool(0.5) {
+            s.env.push(EnvStep { at: "step".into(), n: at + rng.gen_range(1..80), op: EnvOp::Budget { ep, n: None } });
+        } else {
+            s.env.push(EnvStep { at: "q".into(), n: 1, op: EnvOp::Budget { ep, n: None } });
+        }
+    }
+    if let Some(v) = env_win {
+        let ep = rng.gen_range(0..2);
+        s.env.push(EnvStep { at: "step".into(), n: rng.gen_range(5..150), op: EnvOp::Conn { ep, op: "initial_window".into(), n: v } });
+    }
+    if rng.gen_bool(0.15) {
+        let ep = rng.gen_range(0..2);
+        s.env.push(EnvStep { at: "step".into(), n: rng.gen_range(5..150), op: EnvOp::Conn { ep, op: "target_window".into(), n: pick(&mut rng, &[1000u32, 65535, 70000, 1 << 20]) } });
+    }
+    if rng.gen_bool(0.2) {
+        s.env.push(EnvStep { at: "step".into(), n: rng.gen_range(5..150), op: EnvOp::Ping { ep: rng.gen_range(0..2) } });
+    }
+    if rng.gen_bool(0.3) {
+        s.env.push(EnvStep { at: "step".into(), n: rng.gen_range(5..200), op: EnvOp::Census });
+    }
+    s.env.push(EnvStep { at: "q".into(), n: 1, op: EnvOp::Census });
+    s.drop_sr_when_done = rng.gen_bool(0.7);
+    if !s.drop_sr_when_done {
+        s.env.push(EnvStep { at: "q".into(), n: 2, op: EnvOp::DropSr });
+    }
+    s.sched.then = pick(&mut rng, &["random", "random", "random", "fifo", "lifo"]).to_string();
+    let pol_ok = |p: &ReadPol| p.release == "now" && !p.idle;
+    s.coop = s.reqs.iter().all(|r| pol_ok(&r.read)) && s.srv.iter().all(|p| pol_ok(&p.read))
+        && !s.env.iter().any(|e| matches!(&e.op, EnvOp::Conn { op, n, .. } if op == "initial_window" && *n == 0));
     s
+}
+
+fn shrink(ops: &mut Vec<SendOp>) {
+    for o in ops.iter_mut() {
+        match o {
+            SendOp::Data { n, .. } | SendOp::DataCap { n, .. } | SendOp::Reserve { n } => {
+                if *n > 300 {
+                    *n = 257 + (*n % 13);
+                }
+            }
+            SendOp::Trailers { hid } => {
+                if [7usize, 8, 9, 20, 21, 6, 16, 12, 22].contains(hid) {
+                    *hid = 1;
+                }
+            }
+            _ => {}
+        }
+    }
+}
+
+pub fn basic(seed: u64) -> Scenario {
+    mix_a(seed, false)
+}
+
+pub fn by_family(fam: &str, seed: u64) -> Scenario {
+    match fam {
+        "mixA" => mix_a(seed, false),
+        "mixAd" => mix_a(seed, true),
+        _ => mix_a(seed, false),
+    }
 }
